@@ -97,6 +97,7 @@ func runTTree(c *load.Ctx, r *report.RuleResult) {
 			in.Store(in.FieldPtr(t, "nextIndex"), int64(n))
 			return in.Call(feedLeaves, []pe.Value{t, pe.NewSym("lex", feedLeaves.Params[1].Type())})
 		})
+		okSeen := map[string]bool{}
 		for i, o := range outs {
 			val := o.ChoiceMap()
 			var pat []string
@@ -152,7 +153,10 @@ func runTTree(c *load.Ctx, r *report.RuleResult) {
 					r.Bad(key, pos, "the rejection is not a positioned document error: "+shown)
 					continue
 				}
-				r.OK(key, pos, "rejected")
+				if !okSeen[key] {
+					okSeen[key] = true
+					r.OK(key, pos, "rejected")
+				}
 				continue
 			}
 			if o.Panicked {
@@ -194,7 +198,10 @@ func runTTree(c *load.Ctx, r *report.RuleResult) {
 				r.Bad(key, pos, fmt.Sprintf("reports completion=%v with %d candidate(s) left", done, len(want)))
 				continue
 			}
-			r.OK(key, pos, fmt.Sprintf("live: %v", got))
+			if !okSeen[key] { // the same outcome pattern is reached once per map iteration order
+				okSeen[key] = true
+				r.OK(key, pos, fmt.Sprintf("live: %v", got))
+			}
 		}
 	}
 }
